@@ -72,19 +72,19 @@ func fromTypeRef(r *gengotypes.TypeRef) refTree {
 
 type typerefObs struct {
 	core.Panic
-	ParseErr       bool       `json:"parse_err"`
-	ParseErrMsg    string     `json:"parse_err_msg"`
-	Parsed         refTree    `json:"parsed"`
-	Printed        []string   `json:"printed"`
-	RefErr         bool       `json:"ref_err"`
-	RefPath        []string   `json:"ref_path"`
-	RefName        []string   `json:"ref_name"`
-	RefString      []string   `json:"ref_string"`
-	ExposePath     []string   `json:"expose_path"`
-	ExposeName     []string   `json:"expose_name"`
-	RenderPanicked bool       `json:"render_panicked"`
-	RenderMsg      string     `json:"render_msg"`
-	Rendered       []string   `json:"rendered"`
+	ParseErr       bool         `json:"parse_err"`
+	ParseErrMsg    string       `json:"parse_err_msg"`
+	Parsed         refTree      `json:"parsed"`
+	Printed        []string     `json:"printed"`
+	RefErr         bool         `json:"ref_err"`
+	RefPath        []string     `json:"ref_path"`
+	RefName        []string     `json:"ref_name"`
+	RefString      []string     `json:"ref_string"`
+	ExposePath     []string     `json:"expose_path"`
+	ExposeName     []string     `json:"expose_name"`
+	RenderPanicked bool         `json:"render_panicked"`
+	RenderMsg      string       `json:"render_msg"`
+	Rendered       []string     `json:"rendered"`
 	Imports        [][][]string `json:"imports"`
 }
 
